@@ -132,10 +132,16 @@ func (r *RNG) GradientSetupOpt(lazy bool) []Call {
 	if r.Chance(30) {
 		lo = float32(r.Intn(30)) / 100
 	}
+	// now and then all stops have one colour (round 5, C15-I: such a gradient is NOT a flat colour — spread "none"
+	// still leaves it transparent outside [0,1])
+	oneColour, theColour := r.Chance(12), r.Premul()
 	for i := 0; i < nStops; i++ {
 		c := r.Premul()
 		if r.Chance(2) {
 			c = r.RGBAAny()
+		}
+		if oneColour {
+			c = theColour
 		}
 		o := lo + (1-lo)*float32(i)/denom
 		if nStops > 1 && i > 0 && i < nStops-1 && r.Chance(50) {
@@ -1855,8 +1861,13 @@ func gridGradient(r *RNG) []Call {
 	}
 	nStops = len(offs)
 	cs = append(cs, Call{Name: "csel", U8: 10}, Call{Name: "nsel", U8: 10})
+	oneColour, theColour := r.Chance(15), r.Premul()
 	for _, o := range offs {
-		cs = append(cs, Call{Name: "creg", Incr: true, Col: ivg.RGBAColor(r.Premul())}, Call{Name: "nreg", Incr: true, F: fl(o)})
+		c := r.Premul()
+		if oneColour {
+			c = theColour
+		}
+		cs = append(cs, Call{Name: "creg", Incr: true, Col: ivg.RGBAColor(c)}, Call{Name: "nreg", Incr: true, F: fl(o)})
 	}
 	cs = append(cs, Call{Name: "nsel", U8: 10})
 	shape := uint8(r.Intn(2))
